@@ -1,6 +1,7 @@
 /-
-C02/C15 — whole documents of tables whose columns carry settings, a note and properties: the instance of
-`form_tables_roundtrip` (C02FormTables.lean) for `flagForm` (C02Flags.lean).
+C02/C05/C14/C15 — whole documents of tables whose columns carry settings, a note and properties, each table possibly
+under a one-line comment, followed by references: the instances of `form_tables_roundtrip` (C02FormTables.lean) and
+`form_refs_roundtrip` (C02FormRefs.lean) for `flagForm` (C02Flags.lean).
 -/
 import PyDBMLProofs.Props.C02Flags
 import PyDBMLProofs.Props.C02FormTables
@@ -9,40 +10,46 @@ namespace PyDBML
 namespace C02
 open Lex Grammar Build
 
-/-- the table of the content model that a name and a list of described columns stand for -/
-def flagTable (t : Str × List FCol) : Table := { name := t.1, columns := t.2.map FCol.col }
+/-- the table of the content model that a described table stands for -/
+def flagTable (t : FTab FCol) : Table := { name := t.name, columns := t.cols.map FCol.col, comment := t.comment }
 
-/-- **C02 (and the round-trip clause of C15) for documents of tables with column settings, end to end**: a database
-    holding any positive number of tables with pairwise different names (schema public), each with any positive number
-    of columns carrying ANY SUBSET of `pk`, `increment`, `unique`, `not null`, possibly a one-line note and - with the
-    properties switch on - any number of arbitrary properties, is rendered to DBML and parsed back to exactly the same
-    database: same tables, same columns, same settings, same notes, same properties, all in the same order. -/
-theorem flags_tables_roundtrip_partial (ap : Bool) (ts : List (Str × List FCol))
-    (hok : ∀ t ∈ ts, NameOK t.1 ∧ (∀ s ∈ t.2, s.ok ap) ∧ t.2 ≠ []) (hne : ts ≠ [])
-    (hd : ts.Pairwise (fun a b => a.1 ≠ b.1)) :
+/-- what the theorems ask of a described table: a quoted name, at least one column, every column `FCol.ok`, and the
+    comment (if any) one line beginning with a visible character -/
+def FlagTabOK (ap : Bool) (t : FTab FCol) : Prop :=
+  NameOK t.name ∧ (∀ s ∈ t.cols, s.ok ap) ∧ t.cols ≠ [] ∧ CmOK t.comment
+
+/-- **C02 (and the round-trip clauses of C14 and C15) for documents of tables with column settings, end to end**: a
+    database holding any positive number of tables with pairwise different names (schema public), each possibly under a
+    one-line comment, each with any positive number of columns carrying ANY SUBSET of `pk`, `increment`, `unique`,
+    `not null`, possibly a one-line note and - with the properties switch on - any number of arbitrary properties, is
+    rendered to DBML and parsed back to exactly the same database: same tables, same comments on the same tables, same
+    columns, settings, notes, properties, all in the same order. -/
+theorem flags_tables_roundtrip_partial (ap : Bool) (ts : List (FTab FCol))
+    (hok : ∀ t ∈ ts, FlagTabOK ap t) (hne : ts ≠ []) (hd : ts.Pairwise (fun a b => a.name ≠ b.name)) :
     ∃ text, Dbml.renderDb { tables := ts.map flagTable, allowProps := ap } = .ok text
       ∧ Build.parse ap text = .ok { tables := ts.map flagTable, allowProps := ap } :=
   form_tables_roundtrip flagForm ap ts hok hne hd
 
 /-- the rendered text of two such tables (a test of the statement on one literal) -/
-example : flagForm.docText [(lit "a", [{ name := lit "id", type := lit "int", pk := true }]),
-      (lit "b", [{ name := lit "n", type := lit "text", note := lit "x" }, { name := lit "m", type := lit "int" }])]
-    = lit "Table \"a\" {\n    \"id\" int [pk]\n}\n\nTable \"b\" {\n    \"n\" text [note: 'x']\n    \"m\" int\n}" := by decide
+example : flagForm.docText [{ name := lit "a", cols := [{ name := lit "id", type := lit "int", pk := true }], comment := some (lit "the a's") },
+      { name := lit "b", cols := [{ name := lit "n", type := lit "text", note := lit "x" }, { name := lit "m", type := lit "int" }] }]
+    = lit "// the a's\nTable \"a\" {\n    \"id\" int [pk]\n}\n\nTable \"b\" {\n    \"n\" text [note: 'x']\n    \"m\" int\n}" := by decide
 
-/-- **C02 / C05 / C15: tables with column settings AND references between their columns, end to end.**  A database
-    holding any positive number of tables with pairwise different names, each with any positive number of columns
-    carrying any subset of `pk`, `increment`, `unique`, `not null`, possibly a one-line note and (switch on) any number of
-    properties, and any positive number of pairwise different standalone single-column references between columns of
-    these tables, is rendered to DBML and parsed back to exactly the same database: the references are resolved - by
-    table name and column name - to the very positions they were written from.  The hypotheses on names are exactly the
-    recorded findings: no dot in a table name, a column name is one comma-free piece that survives `strip('() ')`, no two
-    columns of one table with one name. -/
-theorem flags_refs_roundtrip_partial (ap : Bool) (ts : List (Str × List FCol)) (rs : List RSpec)
-    (hok : ∀ t ∈ ts, NameOK t.1 ∧ (∀ s ∈ t.2, s.ok ap) ∧ t.2 ≠ []) (hts : ts ≠ [])
-    (htn : ts.Pairwise (fun a b => a.1 ≠ b.1)) (hnodot : ∀ t ∈ ts, '.' ∉ t.1)
-    (hcn : ∀ t ∈ ts, t.2.Pairwise (fun a b => a.name ≠ b.name))
-    (hcp : ∀ t ∈ ts, ∀ c ∈ t.2, splitComma c.name = [c.name] ∧ stripParenSpace c.name = c.name)
-    (hin : ∀ r ∈ rs, ∃ ta tb, ts[r.t1]? = some ta ∧ ts[r.t2]? = some tb ∧ r.c1 < ta.2.length ∧ r.c2 < tb.2.length)
+/-- **C02 / C05 / C14 / C15: tables with column settings AND references between their columns, end to end.**  A database
+    holding any positive number of tables with pairwise different names, each possibly under a one-line comment, each
+    with any positive number of columns carrying any subset of `pk`, `increment`, `unique`, `not null`, possibly a
+    one-line note and (switch on) any number of properties, and any positive number of pairwise different standalone
+    single-column references between columns of these tables, is rendered to DBML and parsed back to exactly the same
+    database: the comment above a table is stored on that table, the references are resolved - by table name and
+    column name - to the very positions they were written from.  The hypotheses on names are exactly the recorded
+    findings: no dot in a table name, a column name is one comma-free piece that survives `strip('() ')`, no two columns
+    of one table with one name. -/
+theorem flags_refs_roundtrip_partial (ap : Bool) (ts : List (FTab FCol)) (rs : List RSpec)
+    (hok : ∀ t ∈ ts, FlagTabOK ap t) (hts : ts ≠ [])
+    (htn : ts.Pairwise (fun a b => a.name ≠ b.name)) (hnodot : ∀ t ∈ ts, '.' ∉ t.name)
+    (hcn : ∀ t ∈ ts, t.cols.Pairwise (fun a b => a.name ≠ b.name))
+    (hcp : ∀ t ∈ ts, ∀ c ∈ t.cols, splitComma c.name = [c.name] ∧ stripParenSpace c.name = c.name)
+    (hin : ∀ r ∈ rs, ∃ ta tb, ts[r.t1]? = some ta ∧ ts[r.t2]? = some tb ∧ r.c1 < ta.cols.length ∧ r.c2 < tb.cols.length)
     (hrs : rs ≠ []) (hnd : rs.Nodup) :
     ∃ text, Dbml.renderDb { tables := ts.map flagTable, refs := rs.map mkRef, allowProps := ap } = .ok text
       ∧ Build.parse ap text = .ok { tables := ts.map flagTable, refs := rs.map mkRef, allowProps := ap } :=
@@ -50,12 +57,16 @@ theorem flags_refs_roundtrip_partial (ap : Bool) (ts : List (Str × List FCol)) 
     ⟨htn, hnodot, hcn, hcp⟩ hin hrs hnd
 
 /-- the rendered text of two such tables and a reference (a test of the statement on one literal) -/
-example : flagForm.docTextR [(lit "a", [{ name := lit "id", type := lit "int", pk := true }]),
-      (lit "b", [{ name := lit "a id", type := lit "int", notNull := true }])]
-      [flagForm.rtext [(lit "a", [{ name := lit "id", type := lit "int", pk := true }]),
-        (lit "b", [{ name := lit "a id", type := lit "int", notNull := true }])] { kind := .manyToOne, t1 := 1, c1 := 0, t2 := 0, c2 := 0 }]
-    = lit "Table \"a\" {\n    \"id\" int [pk]\n}\n\nTable \"b\" {\n    \"a id\" int [not null]\n}\n\nRef {\n    \"b\".\"a id\" > \"a\".\"id\"\n}" := by
+example : flagForm.docTextR [{ name := lit "a", cols := [{ name := lit "id", type := lit "int", pk := true }] },
+      { name := lit "b", cols := [{ name := lit "a id", type := lit "int", notNull := true }], comment := some (lit "child") }]
+      [flagForm.rtext [{ name := lit "a", cols := [{ name := lit "id", type := lit "int", pk := true }] },
+        { name := lit "b", cols := [{ name := lit "a id", type := lit "int", notNull := true }], comment := some (lit "child") }]
+        { kind := .manyToOne, t1 := 1, c1 := 0, t2 := 0, c2 := 0 }]
+    = lit "Table \"a\" {\n    \"id\" int [pk]\n}\n\n// child\nTable \"b\" {\n    \"a id\" int [not null]\n}\n\nRef {\n    \"b\".\"a id\" > \"a\".\"id\"\n}" := by
   decide
+
+/-- non-vacuity of the comment hypothesis -/
+example : CmOK (some (lit "the a's // really")) := ⟨⟨_, _, rfl, by decide⟩, by intro c hc; revert c; decide⟩
 
 end C02
 end PyDBML
